@@ -13,5 +13,5 @@ if [ ! -d $WT ]; then
   ( cd $WT && (git apply $P 2>/dev/null || git apply --3way $P >/dev/null 2>&1) ) || { echo PATCH-FAILED; exit 2; }
 fi
 for c in "$@"; do
-  EG_REPO=$WT VERIF_EVIDENCE_DIR=/tmp/sdw/ev-$name ./check $c 2>&1 | grep -a -E "^rule=|^VIOLATION|^KNOWN|Traceback|Error|^C[0-9]+:" | grep -v "^VIOLATION\|^KNOWN" | cut -c1-${W:-300} | head -${N:-30}
+  EG_REPO=$WT VERIF_EVIDENCE_DIR=/tmp/sdw/ev-$name ./check $c 2>&1 | grep -a -E "^rule=|^VIOLATION|^KNOWN|Traceback|Error|^C[0-9]+:" | grep -a -v "^VIOLATION\|^KNOWN" | cut -c1-${W:-300} | head -${N:-30}
 done
